@@ -8,11 +8,14 @@
        panicking outcome to exactly the number of bits they report (C18_residual, C18_subframes).
      - residuals and all four subframe kinds, serialised by the byte sink, are read back by the
        parser model as the identical component (C18_residual_parses_back, C18_subframe_parses_back).
-   PARTIAL: the frame / header / stream-info / metadata serialisation and parse-back are validated
-   against the implementation and the parser model by the CTOR stream (count_bits = bits written,
-   bytes equal, parse-back identical) but not proved. *)
+     - frames made by FrameHeader::new + Frame::new, serialised and followed by anything, are read back by the
+       parser model as the identical frame (C18_frame_parses_back); a stream made of StreamInfo::new and any
+       MetadataBlockData::new_unknown blocks is read back as the identical stream (C18_stream_parses_back);
+       bit counts of frames are C08's theorems.
+   MODELLED, NOT PROVED: that datatype.rs / verify.rs / parser.rs are these models - the CTOR stream compares
+   every constructor outcome, count_bits, bytes written and parse-back with the model on every run. *)
 From FV Require Import Model.Base Model.Sink Model.Rice Model.Predict Model.Component Model.Flac Model.Parser Model.Ctor
-  Proofs.CtorP Proofs.ParseResidual Proofs.ParseSubframe.
+  Model.Codes Proofs.CtorP Proofs.ParseResidual Proofs.ParseSubframe Proofs.ParseFrame Proofs.ParseFrameCtor Proofs.ParseStream.
 Local Open Scope N_scope.
 
 Theorem C18_total :
@@ -80,3 +83,27 @@ Theorem C18_subframe_parses_back : forall (s : subframe) (bytes : list N),
   exists r', p_subframe (sub_block s) (sub_bps s) (rd_of bytes) = Some (s, r').
 Proof. exact subframe_parse_back. Qed.
 Print Assumptions C18_subframe_parses_back.
+
+(* FrameHeader::new + Frame::new: the frame, serialised, parses back (bps as u8, rate as u32, frame numbers as u32
+   are the argument types of the code) *)
+Theorem C18_frame_parses_back :
+  forall block cha bps rate variable off h subs f bytes rest,
+    header_new block cha bps rate variable off = Ok h -> frame_new h subs = Ok f ->
+    bps < 256 -> rate < 2 ^ 32 -> (variable = false -> off < 2 ^ 32) ->
+    Forall (fun s => sub_typed s /\ sub_quot_u32 s) subs ->
+    frame_bytes f = Ok bytes -> Forall (fun x => x < 256) rest ->
+    p_frame (chassign_channels cha) bps (bytes ++ rest) = Some (f, rest).
+Proof. exact constructed_frame_parses_back. Qed.
+Print Assumptions C18_frame_parses_back.
+
+(* StreamInfo::new + MetadataBlockData::new_unknown *)
+Theorem C18_unknown_new_ok : forall tag data m,
+  unknown_new tag data = Ok m -> Forall (fun x => x < 256) data -> meta_ok m.
+Proof. exact unknown_new_ok. Qed.
+Print Assumptions C18_unknown_new_ok.
+
+Theorem C18_stream_parses_back : forall rate ch bps i metas bytes,
+  streaminfo_ctor rate ch bps = Ok i -> bps <= 24 -> Forall meta_ok metas ->
+  stream_bytes (mkStream i metas []) = Ok bytes -> parse_stream bytes = Some (mkStream i metas []).
+Proof. exact constructed_stream_parses_back. Qed.
+Print Assumptions C18_stream_parses_back.
